@@ -301,6 +301,92 @@ pub fn gen(tier: &str, seed: u64) -> Vec<String> {
             }
         }
     }
+    // (4) layout level: fork and switch read "active keys" from the layout's states, whoever holds
+    // the key there: a physical key, an output chord, a multi, a one-shot, a decided tap-hold, a
+    // virtual key, or a running macro.  KAN lines, run through the kanata-level model.
+    lines.extend(gen_layout_level(&mut r, thorough));
+    lines
+}
+
+/// holders of lsft / rsft on key a; b = fork, c = switch on the same keys, d = layer, e/f = switch
+/// on layer / physical input; outputs of b: 1|2, of c: 3|4 (the Python oracle reads them)
+pub const HOLDERS: [&str; 12] = [
+    "lsft",
+    "rsft",
+    "S-q",
+    "(multi lsft q)",
+    "(one-shot 500 lsft)",
+    "(tap-hold 200 200 q lsft)",
+    "(on-press-fakekey v0 press)",
+    "(multi (on-press-fakekey v0 press) (on-release-fakekey v0 release))",
+    "(macro S-(x 300 z))",
+    "(macro lsft 100 rsft 100 q)",
+    "(macro-release-cancel S-(x 300 z) 200 w)",
+    "(multi lctl (macro RS-(x 150 z)))",
+];
+
+fn gen_layout_level(r: &mut Rng, thorough: bool) -> Vec<String> {
+    use crate::cfggen::{code, consistent_history};
+    use crate::kan::{mk_kline, KEv};
+    use crate::lay::HEv;
+    let mut lines = vec![];
+    let forks = [
+        "(fork 1 2 (lsft rsft))",
+        "(fork (fork 1 2 (lsft rsft)) (fork 1 2 (lsft rsft)) (lctl))",
+        "(multi (fork 1 2 (lsft rsft)) (on-release-fakekey v0 release))",
+    ];
+    let switches = [
+        "(switch ((or lsft rsft)) 3 break () 4 break)",
+        "(switch ((not lsft rsft)) 4 break () 3 break)",
+        "(switch ((and (not lsft) (not rsft))) 4 fallthrough ((or lsft rsft)) 3 break)",
+    ];
+    for (hi, holder) in HOLDERS.iter().enumerate() {
+        for (fi, fork) in forks.iter().enumerate() {
+            let sw = switches[(hi + fi) % switches.len()];
+            let cfg = format!(
+                "(defvirtualkeys v0 lsft)\n(defsrc a b c d e f)\n(deflayer l0 {holder} {fork} {sw} (layer-while-held l1) (switch ((layer l1)) 5 break () 6 break) (switch ((input real a)) 7 break () 8 break))\n(deflayer l1 _ _ _ _ _ _)\n"
+            );
+            // crafted: hold a, after d ms tap the fork key and the switch key; release a; tap both again
+            for d in [1u32, 3, 50, 150, 250, 320, 450] {
+                for release_first in [false, true] {
+                    let mut h = vec![];
+                    h.push(KEv::L(HEv::Press(0, code("a"))));
+                    if release_first {
+                        h.push(KEv::L(HEv::Tick(10)));
+                        h.push(KEv::L(HEv::Release(0, code("a"))));
+                    }
+                    h.push(KEv::L(HEv::Tick(d)));
+                    for k in ["b", "c"] {
+                        h.push(KEv::L(HEv::Press(0, code(k))));
+                        h.push(KEv::L(HEv::Tick(8)));
+                        h.push(KEv::L(HEv::Release(0, code(k))));
+                        h.push(KEv::L(HEv::Tick(8)));
+                    }
+                    if !release_first {
+                        h.push(KEv::L(HEv::Release(0, code("a"))));
+                    }
+                    h.push(KEv::L(HEv::Tick(700)));
+                    for k in ["c", "b", "e", "f"] {
+                        h.push(KEv::L(HEv::Press(0, code(k))));
+                        h.push(KEv::L(HEv::Tick(8)));
+                        h.push(KEv::L(HEv::Release(0, code(k))));
+                        h.push(KEv::L(HEv::Tick(8)));
+                    }
+                    h.push(KEv::L(HEv::Tick(300)));
+                    lines.push(mk_kline("KAN", false, &cfg, &h));
+                }
+            }
+            // random consistent histories over all six keys
+            let n = if thorough { 60 } else { 6 };
+            let keys: Vec<u16> = ["a", "b", "c", "d", "e", "f"].iter().map(|k| code(k)).collect();
+            for _ in 0..n {
+                let n_ev = r.range(2, 14) as usize;
+                let hh = consistent_history(r, &keys, n_ev, &[1, 2, 8, 20, 60, 150, 250], 700);
+                let h: Vec<KEv> = hh.into_iter().map(KEv::L).collect();
+                lines.push(mk_kline("KAN", false, &cfg, &h));
+            }
+        }
+    }
     lines
 }
 
@@ -382,6 +468,9 @@ fn parse_item(t: &mut Toks) -> String {
 const OUT_KEYS: [&str; 10] = ["q", "w", "e", "r", "t", "y", "u", "i", "o", "p"];
 
 pub fn eval(line: &str) -> String {
+    if line.starts_with("KAN ") {
+        return crate::kan::eval(line);
+    }
     let mut t = Toks { t: line.split_whitespace().collect(), i: 0 };
     assert_eq!(t.next(), "C10");
     let ncases = t.num() as usize;
